@@ -276,6 +276,21 @@ def gen(rng, idx, tier):
         rules.append({"type": "single", "feature": "salt", "in": ["kashida-ar"],
                       "out": "kashida-ar.long"})
         kashida = True
+    # ---- cursive glyphs encoded beyond the BMP only: Deseret (left-to-right), Adlam
+    # (right-to-left) - the direction comes from the code point whatever plane it is in
+    if mode != "none" and rng.random() < 0.15:
+        for n_, u_ in rng.sample([("dsrtLongI", 0x10400), ("dsrtLongE", 0x10401),
+                                  ("adlamAlif", 0x1E900), ("adlamDaali", 0x1E901)], rng.choice([1, 2, 3])):
+            if n_ in by_name:
+                continue
+            g_ = S._spec(rng, n_, [u_])
+            glyphs.append(g_)
+            by_name[n_] = g_
+            names.append(n_)
+            exported.append(n_) if isinstance(exported, list) else exported.add(n_)
+            desc[n_] = S.describe(n_, [u_], "letter")
+            put(n_, "entry", "")
+            put(n_, "exit", "")
     # ---- a few mark anchors / kerning for realism (all default writers run)
     if stratum == "empty_categories_user_gdef":
         S.add_mark_anchors(rng, glyphs, desc, classes=("top",), p_base=0.95)
